@@ -9,6 +9,7 @@ missed=0
 for n in $names; do
   d=seeded/$n
   [ -f $d/patch.diff ] || continue
+  if python3 -c "import json,sys;sys.exit(0 if 'superseded_by' in json.load(open('$d/meta.json')) else 1)"; then echo "$n: superseded (the code it edits was replaced by a later fix)"; continue; fi
   checks=$(python3 -c "import json;print(' '.join(json.load(open('$d/meta.json'))['caught_by']))")
   git -C /repo apply $V$PWD/$d/patch.diff 2>/dev/null || git -C /repo apply /verif/$d/patch.diff || { echo "$n: patch does not apply"; missed=$((missed+1)); continue; }
   caught=""
